@@ -726,6 +726,23 @@ func c15Run(env *verifsim.Env, raw json.RawMessage) *verifsim.Violation {
 						if created && other && loaded[db] == "" {
 							v.Key = "config-removed-by-concurrent-operation-with-stale-registry"
 						}
+						// recorded finding: a delete racing with another change of the same database removes the database (alone or
+						// together with the other operation) and still answers Not Found: every operation of the phase was
+						// rejected, yet the database is gone
+						if v.Key == "" && loaded[db] == "" && acked[db] != "" {
+							allNotFound, anyDelete := true, false
+							for _, o := range outs {
+								if o.err == nil || o.crashed || !strings.Contains(o.err.Error(), "Not Found") {
+									allNotFound = false
+								}
+								if o.op.Kind == "delete" {
+									anyDelete = true
+								}
+							}
+							if allNotFound && anyDelete && len(outs) > 1 {
+								v.Key = "delete-answers-not-found-although-it-removed-the-database"
+							}
+						}
 						return v
 					}
 				}
@@ -822,8 +839,16 @@ func c15Run(env *verifsim.Env, raw json.RawMessage) *verifsim.Violation {
 				if k == base.SGRegistryKey {
 					continue // a load inside the rejected change may legitimately repair an interrupted earlier change
 				}
-				if after[k] != v {
-					return verifsim.Vf("C15", "rejected-change-left-trace", "phase %d: %s %s was rejected (%v) but document %s changed", pi, phase[0].Kind, phase[0].DB, outs[0].err, k)
+				if c15CanonJSON(after[k]) != c15CanonJSON(v) {
+					// a rejected change may clean up what an interrupted earlier change left behind, towards the state everybody
+					// was told: the configuration document of a database whose deletion (or failed creation) left it there
+					if _, still := after[k]; !still && strings.HasPrefix(k, base.PersistentConfigPrefixWithoutGroupID) {
+						name := strings.SplitN(strings.TrimPrefix(k, base.PersistentConfigPrefixWithoutGroupID), ":", 2)[0]
+						if acked[name] == "" {
+							continue
+						}
+					}
+					return verifsim.Vf("C15", "rejected-change-left-trace", "phase %d: %s %s was rejected (%v) but document %s changed: %.300q -> %.300q", pi, phase[0].Kind, phase[0].DB, outs[0].err, k, v, after[k])
 				}
 			}
 			for k := range after {
@@ -984,4 +1009,16 @@ func makeC15Config(dbName string, colls []string) *DatabaseConfig {
 	}
 	b := c15Bucket
 	return &DatabaseConfig{DbConfig: DbConfig{Name: dbName, Scopes: sc, BucketConfig: BucketConfig{Bucket: &b}}, MetadataID: dbName}
+}
+
+
+// c15CanonJSON re-marshals a JSON document with sorted keys (a touch of the stub store stores the same content with
+// another key order).
+func c15CanonJSON(v string) string {
+	var m any
+	if v == "" || json.Unmarshal([]byte(v), &m) != nil {
+		return v
+	}
+	b, _ := json.Marshal(m)
+	return string(b)
 }
